@@ -134,13 +134,13 @@ pub open spec fn gzw_finished<W: Write + io::Seek>(g: GenericZipWriter<W>, bare:
     }
 }
 // What the documentation of FileOptions::compression_level promises (and property C12 demands an error outside of):
-//   Deflated 0..=9 (default 6), Bzip2 0..=9 (default 6), Zstd: zstd's own range (default 3),
+//   Deflated 0..=9 (default 6), Bzip2 1..=9 (default 6; libbz2 has no level 0, F23), Zstd: zstd's own range (default 3),
 //   every other method: only `None`.  AES and Unsupported(_) cannot be written at all.
 pub open spec fn level_accepted(m: CompressionMethod, level: Option<i32>) -> bool {
     match m {
         CompressionMethod::Stored => level is None,
         CompressionMethod::Deflated => (level matches Some(l) ==> 0 <= l <= 9),
-        CompressionMethod::Bzip2 => (level matches Some(l) ==> 0 <= l <= 9),
+        CompressionMethod::Bzip2 => (level matches Some(l) ==> 1 <= l <= 9),
         CompressionMethod::Zstd => (level matches Some(l) ==> zstd::min_level() <= l <= zstd::max_level()),
         CompressionMethod::Aes => false,
         CompressionMethod::Unsupported(_) => false,
